@@ -953,6 +953,29 @@ impl AsnDefWriter {
         }
     }
 
+    /// The order in which the fields of a struct are visited by the generated `write_seq` and
+    /// `read_seq`: textual order for a SEQUENCE, canonical (tag) order for a SET
+    pub(crate) fn fields_in_encoding_order(
+        fields: &[Field],
+        extended_after_index: Option<usize>,
+        ordering: EncodingOrdering,
+    ) -> Vec<Field> {
+        match ordering {
+            EncodingOrdering::Keep => fields.to_vec(),
+            EncodingOrdering::Sort => {
+                let fields = Self::assign_implicit_tags(fields);
+                if fields
+                    .iter()
+                    .all(|f| f.tag.or_else(|| f.r#type().tag()).is_some())
+                {
+                    Self::sort_fields_canonically(&fields, extended_after_index)
+                } else {
+                    fields
+                }
+            }
+        }
+    }
+
     fn sort_fields_canonically(
         fields: &[Field],
         extended_after_index: Option<usize>,
